@@ -4,6 +4,7 @@ import (
 	"errors"
 	"fmt"
 	"reflect"
+	"sort"
 	"strings"
 	"time"
 
@@ -34,10 +35,11 @@ type Prov struct {
 }
 
 const (
-	EvEnter = "enter"
-	EvExit  = "exit"
-	EvCB    = "cb"
-	EvSide  = "side" // a registration made from inside a user function body
+	EvEnter  = "enter"
+	EvExit   = "exit"
+	EvCB     = "cb"
+	EvNested = "nested" // an Invoke made from inside a callback returned: Fn = id of the nested function, SideErr = its result, Active = functions whose bodies were running
+	EvSide   = "side"   // a registration made from inside a user function body
 )
 
 type Event struct {
@@ -56,6 +58,37 @@ type Event struct {
 	// EvSide: Fn = id of the constructor provided, SideScope, SideErr
 	SideScope int
 	SideErr   error
+	Active    []int
+}
+
+// cbNestedID is the id of the function a callback of fn invokes (Opts.CBInvoke).
+func cbNestedID(fn int) int { return -(1000000 + fn) }
+
+// cbNested: the body of a callback with Opts.CBInvoke.
+func (rt *RT) cbNested(id int, spec *Reenter, cbErr error) {
+	if spec == nil || cbErr != nil || rt.cbCalls[id] != 1 || rt.scopeOf == nil {
+		return
+	}
+	var act []int
+	for f, n := range rt.active {
+		if n > 0 {
+			act = append(act, f)
+		}
+	}
+	sort.Ints(act)
+	nf := &Fn{ID: cbNestedID(id), P: spec.P}
+	var err error
+	func() {
+		defer func() {
+			if p := recover(); p != nil {
+				err = fmt.Errorf("nested Invoke panicked: %v", p)
+				rt.Log = append(rt.Log, Event{Kind: EvNested, Op: rt.curOp, Fn: nf.ID, SideErr: err, Active: act, CBPanics: true})
+				panic(p)
+			}
+		}()
+		err = rt.scopeOf(spec.S).Invoke(rt.Materialise(nf))
+	}()
+	rt.Log = append(rt.Log, Event{Kind: EvNested, Op: rt.curOp, Fn: nf.ID, SideScope: spec.S, SideErr: err, Active: act})
 }
 
 // CBPanicVal is what a panicking callback panics with.
@@ -148,6 +181,7 @@ type RT struct {
 	Reentered int
 	cbCalls   map[int]int
 	infos     infoSlots
+	kept      []keptInfo
 	active    map[int]int // fn → number of bodies currently on the stack
 	Nested    []int       // fns whose body was entered while already running
 }
